@@ -313,7 +313,7 @@ def data_condition(c, hole, context, dialect):
                 return None, f"replace patterns {pats} outside the probed set"
             return True, "per-character images are blocks of ([^']|'')* (homomorphism lemma)"
         try:
-            node = P.parse_node(lang, image(lang, tr, P)) if False else _mapped(P, c, info, tr)
+            node = _mapped(P, c, info, tr)
         except A.RegexUnsupported as ex:
             return None, f"language image not computable: {ex}"
         g = A.Group({"L": node, "OK": P.parse(r"(?:[^']|'')*", 0)})
